@@ -48,7 +48,7 @@ var replyOps = []string{"GetStats", "GetAvailable", "DropPeer", "GetPeer", "GetP
 var fireOps = []string{"NewPeer", "AddKnown", "BadPeer", "Have", "Announce", "RequestNoWait", "WriterClose"}
 var otherOps = []string{"Kill", "KillCtx", "ReaderRead", "PeerGetStatus", "PeerGetPex", "PeerGetStats",
 	"PeerGetBitmap", "PeerGetHave"}
-var stops = []string{"live", "before", "inqueue-goaway", "inqueue-cancel", "answering"}
+var stops = []string{"live", "before", "inqueue-goaway", "inqueue-cancel", "answering", "full-goaway"}
 
 func allOps() []string {
 	var o []string
@@ -581,6 +581,30 @@ func runCase(c *vhlib.Ctx, cs caseSpec) {
 		} else {
 			got = wait()
 		}
+	case "full-goaway":
+		// delete the torrent while its queue is full and its peers hold undeliverable
+		// events: the loop is blocked, a TorGoAway heads the queue, the rest of the 512
+		// slots is filled; the remote ends then send Haves, which the peers cannot hand
+		// over (peer.events non-empty); the call under test finds the queue full
+		if !block() {
+			got = "hang"
+			break
+		}
+		t.Event <- peer.TorGoAway{}
+		pushBacklog(t, cs.backlog)
+	fill:
+		for i := 0; ; i++ {
+			select {
+			case t.Event <- peer.TorBadPeer{Peer: 900000 + uint32(i), Bad: false}:
+			default:
+				break fill
+			}
+		}
+		e.peersEmit()
+		call()
+		time.Sleep(2 * time.Millisecond)
+		release()
+		got = wait()
 	default:
 		got = "bad-stop"
 	}
@@ -650,6 +674,7 @@ func runCase(c *vhlib.Ctx, cs caseSpec) {
 		case <-time.After(2 * time.Second):
 		}
 	}
+	getters, stuckGetter := e.gettersReturn()
 	opconn := "none"
 	if e.opconn != nil {
 		if pollUntil(300*time.Millisecond, func() bool { return e.opconn.local.closed.Load() }) {
@@ -684,8 +709,8 @@ func runCase(c *vhlib.Ctx, cs caseSpec) {
 		}
 		return "0"
 	}
-	aline := fmt.Sprintf("after op=%s stop=%s got=%s peers=%d closed=%d readers=%d rdead=%d listed=%s done=%s mem=%s gor=%s opconn=%s",
-		cs.op, cs.stop, got, len(e.remotes), closed, len(e.readers), rdead, b(listed), b(doneClosed), b(mem), b(gor), opconn)
+	aline := fmt.Sprintf("after op=%s stop=%s got=%s peers=%d closed=%d readers=%d rdead=%d listed=%s done=%s mem=%s gor=%s getters=%s opconn=%s",
+		cs.op, cs.stop, got, len(e.remotes), closed, len(e.readers), rdead, b(listed), b(doneClosed), b(mem), b(gor), b(getters), opconn)
 	c.Emit(aline, "accept")
 	c.Count("after/"+cs.stop+"/opconn="+opconn, aline, false)
 	// ---- oracle, part 2: deletion is complete
@@ -705,6 +730,9 @@ func runCase(c *vhlib.Ctx, cs caseSpec) {
 	if opconn == "open" {
 		c.Violate("conn-open:NewPeer:"+cs.stop+":"+got, "NewPeer returned "+got+" but the connection it was given is never closed", c.Case())
 	}
+	if !getters {
+		c.Violate("hang:peer-getter:"+stuckGetter+":"+cs.stop, "after the deletion Peer."+stuckGetter+" on a peer of the torrent did not return within "+watchdog.String()+" ("+cs.String()+")", c.Case())
+	}
 	if rdead != len(e.readers) {
 		c.Violate("reader-not-failed:"+ctxs, fmt.Sprintf("%d of %d blocked readers failed with torrent-is-dead", rdead, len(e.readers)), c.Case())
 	}
@@ -714,6 +742,68 @@ func runCase(c *vhlib.Ctx, cs caseSpec) {
 	if !gor {
 		c.Violate("goroutine-leak:"+kindPv(cs.pv)+":"+cs.op, fmt.Sprintf("goroutines %d baseline %d (%s)\n%s", runtime.NumGoroutine(), e.gor0, cs, stacks()), c.Case())
 	}
+}
+
+// peersEmit makes every live peer produce events for the torrent: the remote end sends a
+// Have for every piece; returns once each peer has processed them.
+func (e *env) peersEmit() {
+	var msg []byte
+	for i := 0; i < 4; i++ {
+		msg = append(msg, 0, 0, 0, 5, 4, 0, 0, 0, byte(i))
+	}
+	live := 0
+	for _, r := range e.remotes {
+		if !r.eof.Load() {
+			r.remote.SetWriteDeadline(time.Now().Add(time.Second))
+			r.remote.Write(msg)
+			live++
+		}
+	}
+	if live == 0 {
+		return
+	}
+	done := make(chan struct{})
+	go func() {
+		defer close(done)
+		for _, p := range e.peerList {
+			pollUntil(time.Second, func() bool { return p.GetHave(3) })
+		}
+	}()
+	select {
+	case <-done:
+	case <-time.After(watchdog):
+	}
+}
+
+// gettersReturn: every getter of every peer that was connected returns within the watchdog
+func (e *env) gettersReturn() (bool, string) {
+	names := []string{"GetStatus", "GetStats", "GetBitmap", "GetHave", "GetPex"}
+	for _, p := range e.peerList {
+		for _, name := range names {
+			done := make(chan struct{})
+			go func() {
+				defer close(done)
+				switch name {
+				case "GetStatus":
+					p.GetStatus()
+				case "GetStats":
+					p.GetStats()
+				case "GetBitmap":
+					p.GetBitmap()
+				case "GetHave":
+					p.GetHave(0)
+				case "GetPex":
+					p.GetPex()
+				}
+			}()
+			select {
+			case <-done:
+			case <-time.After(watchdog):
+				return false, name
+			}
+		}
+	}
+	return true, ""
 }
 
 func kindPv(pv string) string {
